@@ -117,6 +117,14 @@ def handleGen (op : String) (j : Json) : Except String Json := do
       let sup := fun (s k : String) => (s == "Variables" || s == "") && ini.vars.any (fun p => p.1 == Atsim.norm k)
       return Json.mkObj [("has", arrJ (qs.map fun q => Json.bool (raw_has_option Atsim.strip sup ini.sections "Variables" q.1 q.2))),
                          ("xform", arrJ (qs.map fun q => Json.str (raw_optionxform Atsim.strip q.2)))]
+  | "trans_modifier" =>
+    -- _modifiers.trans on argument definitions: [id of what the form builder was handed (as for spline_modifier), the shift] or the error
+    let forms ← (← getArr j "forms").mapM parseInstS
+    let idOf := fun (p : PInstS) => (p.parameters.headD 0).num.toNat
+    let mkFn := fun (p : PInstS) => (⟨idOf p * 4 + (if p.next.isSome then 2 else 0) + (if p.start.range_type == ">=" then 1 else 0)⟩ : FnObj2)
+    match trans_modifier mkFn forms () with
+    | .ok t => return arrJ [natJ t.fn.id, ratJ t.x]
+    | .error e => return Json.str (match e with | .notTwoArguments => "notTwoArguments" | .secondNotConstant => "secondNotConstant" | .notOneParameter => "notOneParameter" | .indexError => "indexError")
   | "spline_modifier" =>
     -- _modifiers.spline on argument definitions; the form builder names what it is handed (its "id" parameter, whether it still has a next part, whether its start was
     -- made minus infinity), the spline factories check their parameters as the real ones do and record what they were handed
